@@ -336,13 +336,20 @@ def build4(m):
                  ('result[0][4] == lines.start_line + old(lines._index) + 1', 'C13'),
                  'len(result[0][3]) >= 1',
                  'implies(not is_none(result[1]), lines._index + 1 < len(lines.lines) and is_marker(lines.lines[lines._index + 1]))',
-                 'implies(not is_none(result[1]), len(some(result[1])[2]) >= 1)'],
+                 'implies(not is_none(result[1]), len(some(result[1])[2]) >= 1)',
+                 # tight/loose hand-back: an item that ends after trailing blank lines (and is not
+                 # directly followed by a sibling marker) leaves the last of them unconsumed, so the
+                 # enclosing tokenize_block sees the blank line that makes its container loose
+                 ('implies(g_nc > 0 and is_none(result[1]), lines._index == g_idx - 1)', 'C03'),
+                 ('implies(g_nc == 0 and g_idx >= 0, lines._index == g_idx)', 'C03')],
         ensures_exc=['CURSOR_OK(lines)'],
         modifies=['lines._index', 'G:SCRATCH', 'G:FOOTNOTES'] + NESTED,
         allow_exc=['CustomTokenError'],
         body_types={'next_line': TOpt(STR), 'line_buffer': TList(STR), 'next_marker': TOpt(MARKER)},
-        ghost_init={'g_first': (INT, '-1')},
+        ghost_init={'g_first': (INT, '-1'), 'g_nc': (INT, '0'), 'g_idx': (INT, '-1')},
         ghost_after={
+            'next(lines)': [('g_idx', 'lines._index')],
+            "newline_count = newline_count + 1 if continuation == '\\n' else 0": [('g_nc', 'newline_count')],
             'line_buffer.append(content)': [('g_first', 'lines._index')],
             'line_buffer.append(continuation)': [('g_first', 'lines._index + 1 if len(line_buffer) == 1 else g_first')],
         },
@@ -353,12 +360,15 @@ def build4(m):
             0: Loop(invariant=['CURSOR_OK(lines)', 'lines._index > old(lines._index)',
                                'is_none(next_line) == (lines._index + 1 >= len(lines.lines))',
                                'implies(not is_none(next_line), some(next_line) == lines.lines[lines._index + 1])',
-                               'blanks >= 1', 'lines._index == old(lines._index) + blanks'],
+                               'blanks >= 1', 'lines._index == old(lines._index) + blanks',
+                               'g_nc == 0', 'g_idx == -1 or g_idx == lines._index'],
                     decreases='len(lines.lines) - 1 - lines._index'),
             1: Loop(invariant=['CURSOR_OK(lines)', 'lines._index > old(lines._index)',
                                'is_none(next_line) == (lines._index + 1 >= len(lines.lines))',
                                'implies(not is_none(next_line), some(next_line) == lines.lines[lines._index + 1])',
                                '0 <= newline_count', 'newline_count <= len(line_buffer)',
+                               'g_nc == newline_count', 'g_idx == -1 or g_idx == lines._index',
+                               'implies(newline_count > 0, g_idx == lines._index)',
                                # a backstep after trailing blank lines cannot undo the marker line
                                'implies(newline_count >= 1, lines._index >= old(lines._index) + 2)',
                                'start_line == lines.start_line + old(lines._index) + 1',
